@@ -99,11 +99,11 @@ var leaves = map[string]leafInfo{
 	"MyInt": {reflect.TypeOf(MyInt(0)), []string{"int"}}, "MyStr": {reflect.TypeOf(MyStr("")), []string{"string"}},
 	"MyFloat": {reflect.TypeOf(MyFloat(0)), []string{"float64"}}, "MyBool": {reflect.TypeOf(MyBool(false)), []string{"bool"}},
 	"Duration": {reflect.TypeOf(time.Duration(0)), []string{"int64"}},
-	"MyU64": {reflect.TypeOf(MyU64(0)), []string{"uint64"}}, "MyU8": {reflect.TypeOf(MyU8(0)), []string{"uint8"}},
+	"MyU64":    {reflect.TypeOf(MyU64(0)), []string{"uint64"}}, "MyU8": {reflect.TypeOf(MyU8(0)), []string{"uint8"}},
 	"MyI8": {reflect.TypeOf(MyI8(0)), []string{"int8"}}, "MyF32": {reflect.TypeOf(MyF32(0)), []string{"float32"}},
-	"MyList":   {reflect.TypeOf(MyList(nil)), []string{"slice", "int"}},
-	"MyMap":    {reflect.TypeOf(MyMap(nil)), []string{"map", "string"}},
-	"Rec":      {reflect.TypeOf(Rec{}), []string{"s2", "int64"}},
+	"MyList": {reflect.TypeOf(MyList(nil)), []string{"slice", "int"}},
+	"MyMap":  {reflect.TypeOf(MyMap(nil)), []string{"map", "string"}},
+	"Rec":    {reflect.TypeOf(Rec{}), []string{"s2", "int64"}},
 	// deliberately unsupported kinds
 	"complex128": {reflect.TypeOf(complex128(0)), nil}, "chan": {reflect.TypeOf((chan int)(nil)), nil},
 	"func": {reflect.TypeOf((func())(nil)), nil},
